@@ -19,6 +19,8 @@ STEPS: Dict[str, timedelta] = {
     "ms": timedelta(milliseconds=250),
     "s": timedelta(seconds=1),
     "h": timedelta(hours=1),
+    "2h": timedelta(hours=2),
+    "7h": timedelta(hours=7),
     "d": timedelta(days=1),
     "200d": timedelta(days=200),
     "400d": timedelta(days=400),
@@ -34,8 +36,11 @@ ALL = "ALL"
 ROW_BASE = 8
 
 
-def B(price: Any, amount: Any, acct: int = 0, typ: str = "BUY", fee: Any = 0) -> Tuple[Any, ...]:
-    """fee: crypto fee of the acquisition (only meaningful through the parser, which splits it into an artificial FEE disposal)."""
+def B(price: Any, amount: Any, acct: int = 0, typ: str = "BUY", fee: Any = 0, fiat_fee: Any = 0) -> Tuple[Any, ...]:
+    """fee: crypto fee of the acquisition (only meaningful through the parser, which splits it into an artificial FEE disposal);
+    fiat_fee: fee paid in fiat (part of the lot's cost, not of its spot price)."""
+    if fiat_fee:
+        return ("B", price, amount, acct, typ, fee, fiat_fee)
     return ("B", price, amount, acct, typ) if not fee else ("B", price, amount, acct, typ, fee)
 
 
@@ -71,7 +76,7 @@ def sym_str(sym: Tuple[Any, ...]) -> str:
     if k == "B":
         t = "" if sym[4] == "BUY" else f",{sym[4]}"
         a = "" if sym[3] == 0 else f"@{sym[3]}"
-        f = f",cryptofee={sym[5]}" if len(sym) > 5 else ""
+        f = (f",cryptofee={sym[5]}" if len(sym) > 5 and sym[5] else "") + (f",fiatfee={sym[6]}" if len(sym) > 6 else "")
         return f"B({sym[1]},{sym[2]}{t}{f}){a}"
     if k == "E":
         t = "" if sym[4] == "INTEREST" else f",{sym[4]}"
@@ -145,9 +150,11 @@ def materialize(
                 "row": row,
             }
             balance += a
-            if len(sym) > 5:
+            if len(sym) > 5 and sym[5]:
                 spec["crypto_fee"] = dec(Fraction(sym[5]) * scale)
                 balance -= Fraction(sym[5]) * scale
+            if len(sym) > 6:
+                spec["fiat_fee"] = dec(Fraction(sym[6]))
         elif kind == "S":
             _, price, amount, acct, typ, fee = sym
             f = Fraction(fee) * scale
